@@ -1,7 +1,7 @@
 (* Run.v — entry point used by the extracted driver and by the in-Coq
    cross-check: one case (as written by the harness) and the implementation's
    observation in, the model's observation and the spec verdicts out. *)
-From Model Require Import Str Sexp Http Cors.
+From Model Require Import Str Sexp Http Cors Template Table Curly DetectRoute Jsr311 Router.
 From Spec Require Import CorsSpec.
 
 Definition verdict (name : string) (b : bool) : sexp := Lst [A (L name); of_bool b].
@@ -48,7 +48,40 @@ Definition run_cors (c impl : sexp) : sexp :=
               verdict "c09_actual_request_continues" (implb (al && negb pre) (invoked && any)) ];
         A (L cls); Lst [] ].
 
+(* ---- domain "route" (C01 C02 C03 C04 C14 C17 C18) ----
+   case: (oracles table request)
+   impl / model observation: (class status allow invoked params selpath selok)
+     class 0 = a route function ran, 1 = error response, 2 = panic escaped *)
+Definition of_params (ps : list (str * str)) : sexp :=
+  let keys := sort_strs (map fst ps) in
+  Lst (map (fun k => Lst [A k; A (match assoc k ps with Some v => v | None => [] end)]) keys).
+
+Definition routed_obs (t : table) (x : routed) : sexp :=
+  match x with
+  | RInvoke w r ps =>
+      Lst [I 0; I 200; Lst []; Lst [I (r_id r)]; of_params ps; A (route_path w r); I 1]
+  | RError e =>
+      let '(st, allow) := match e with
+                          | E404 => (404, []) | E405 a => (405, a) | E415 => (415, []) | E406 => (406, [])
+                          end%Z in
+      Lst [I 1; I st; of_strs (sort_strs allow); Lst []; Lst []; A []; I 1]
+  | RPanic => Lst [I 2; I 200; Lst []; Lst []; Lst []; A []; I 1]
+  end.
+
+Definition run_route (c impl : sexp) : sexp :=
+  let O := sx_oracles (sx_nth 0 c) in
+  let t := sx_table (sx_nth 1 c) in
+  let req := sx_request (sx_nth 2 c) in
+  let x := route_request O t req in
+  let cls := match x with
+             | RInvoke _ _ _ => "invoked"
+             | RError E404 => "404" | RError (E405 _) => "405" | RError E415 => "415" | RError E406 => "406"
+             | RPanic => "panic"
+             end%string in
+  Lst [ routed_obs t x; Lst []; A (L cls); Lst [] ].
+
 Definition run_case (c impl : sexp) : sexp :=
   let dom := sx_str (sx_nth 0 c) in
   if str_eqb dom (L "cors") then run_cors (sx_nth 1 c) impl
+  else if str_eqb dom (L "route") then run_route (sx_nth 1 c) impl
   else Lst [A (L "unknown-domain")].
